@@ -56,8 +56,15 @@ def parametric_cases(rng, n):
     return out
 
 
+PARAM_HAND = [
+    'start: p::0 "X"\np::_: "a" %if bit_set(0) | p::set_bit(0) %if bit_clear(0)\n',
+    'start: p::0\np::_: "." | "a" q::_\nq::_: "b" p::incr([0:2])\n',
+    'start    :  perm::0x0\nperm::_  :  ""                       %if is_ones([0:3])\n         |  "a" perm::set_bit(0)     %if bit_clear(0)\n         |  "b" perm::set_bit(1)     %if bit_clear(1)\n         |  "c" perm::set_bit(2)     %if bit_clear(2)\n',
+]
+
+
 def corpus(tr, sd):
-    cases = []
+    cases = [dict(kind="lark", text=t, origin="parametric-hand") for t in PARAM_HAND]
     cases += parametric_cases(random.Random(1700 + sd), 24 if tr == "quick" else 200)
     for t in HAND:
         cases.append(dict(kind="lark", text=t, origin="hand"))
